@@ -292,6 +292,12 @@ class DescriptorTransaction(_TransactionBase):
                                      if tr_item.new is None and tr_item.old is not None]
             to_be_created_handles = [tr_item.new.Handle for tr_item in self.descriptor_updates.values()
                                      if tr_item.old is None and tr_item.new is not None]
+            # all descriptors that disappear with this transaction (the to be deleted ones plus their subtrees)
+            vanishing_handles = set()
+            for tr_item in self.descriptor_updates.values():
+                if tr_item.new is None and tr_item.old is not None:
+                    vanishing_handles.update(
+                        d.Handle for d in self._mdib.get_all_descriptors_in_subtree(tr_item.old))
             # Remark 1:
             # handling only updated states here: If a descriptor is created, it can be assumed that the
             # application also creates the state in a transaction.
@@ -336,6 +342,9 @@ class DescriptorTransaction(_TransactionBase):
                             and orig_descriptor.parent_handle not in to_be_deleted_handles:
                         # only update parent if it is not also deleted in this transaction
                         self._increment_parent_descriptor_version(proc, orig_descriptor)
+                elif orig_descriptor.Handle in vanishing_handles:
+                    # update of a descriptor that is deleted (as part of a subtree) in this same transaction
+                    continue
                 else:
                     # this is an update operation
                     proc.descr_updated.append(new_descriptor.mk_copy())  # the mdib shares values with new_descriptor
